@@ -303,6 +303,18 @@ func newFloatGen(flags int, opt bool) *floatGen {
 	}
 	g.AddUnaryFunc("-", func(a float64) (float64, error) { return -a, nil }).
 		AddSimpleFunction("sqr", func(x float64) float64 { return x * x }).
+		AddGoFunction("sum", -1, func(a ...float64) (float64, error) {
+			s := 0.0
+			for i, x := range a {
+				if i == 0 {
+					s = x
+				} else {
+					s += x
+				}
+			}
+			return s, nil
+		}).
+		AddGoFunction("count", -1, func(a ...float64) (float64, error) { return float64(len(a)), nil }).
 		SetToBool(func(c float64) (bool, bool) { return c != 0, true }).
 		SetNumberParser(parser2.NumberParserFunc[float64](func(n string) (float64, error) { return strconv.ParseFloat(n, 64) }))
 	if !opt {
@@ -346,6 +358,18 @@ func floatEval(t *xt, env [5]float64, regroupOK *bool) float64 {
 	case 'l':
 		env[2+t.op] = floatEval(t.c, env, regroupOK)
 		return floatEval(t.l, env, regroupOK)
+	case 'g':
+		s, n := floatEval(t.l, env, regroupOK), 1.0
+		for _, a := range []*xt{t.r, t.c} {
+			if a != nil {
+				s += floatEval(a, env, regroupOK)
+				n++
+			}
+		}
+		if t.op == 1 {
+			return n
+		}
+		return s
 	}
 	panic("bad node")
 }
@@ -477,9 +501,13 @@ func floatRender(t *xt, mode int) string {
 			return s
 		}
 		l, r := side(t.l, false), side(t.r, true)
-		if mode == 2 && t.op == 5 {
+		if (mode == 2 || mode == 3) && t.op == 5 {
 			lc, rc := lastTokClass(l), firstTokClass(r)
 			if (lc == 'n' || lc == 'i' || lc == ')') && (rc == 'n' || rc == 'i' || rc == '(') {
+				// mode 3: no blank either, where the two stay separate tokens and no call is written
+				if mode == 3 && ((lc == 'n' && (rc == '(' || rc == 'i')) || (lc == ')' && (rc == '(' || rc == 'i' || rc == 'n'))) {
+					return l + r
+				}
 				return l + " " + r
 			}
 		}
@@ -488,8 +516,45 @@ func floatRender(t *xt, mode int) string {
 		return "if " + floatRender(t.c, mode) + " then " + floatRender(t.l, mode) + " else " + floatRender(t.r, mode)
 	case 'l':
 		return "let " + letNames[t.op] + "=" + floatRender(t.c, mode) + ";" + floatRender(t.l, mode)
+	case 'g':
+		s := goFuncNames[t.op] + "(" + floatRender(t.l, mode)
+		for _, a := range []*xt{t.r, t.c} {
+			if a != nil {
+				s += "," + floatRender(a, mode)
+			}
+		}
+		return s + ")"
 	}
 	panic("bad node")
+}
+
+// variadic functions registered with AddGoFunction (they receive their arguments as a slice)
+var goFuncNames = []string{"sum", "count"}
+
+// randGoCall: a call of a variadic function with 1..3 arguments that are small trees, let chains or - nested -
+// further calls (so that calls follow deeper evaluations on the same stack).
+func randGoCall(r interface {
+	IntN(int) int
+	Int64N(int64) int64
+}, t []int64, depth int) *xt {
+	arg := func() *xt {
+		switch {
+		case depth > 0 && r.IntN(3) == 0:
+			return randGoCall(r, t, depth-1)
+		case r.IntN(6) == 0:
+			return randLets(r, t, 6, 8, 2)
+		}
+		n := r.IntN(3)
+		return unrank(t, n, r.Int64N(t[n]), 6, 8, 2)
+	}
+	g := &xt{k: 'g', op: r.IntN(2), l: arg()}
+	if r.IntN(4) > 0 {
+		g.r = arg()
+		if r.IntN(2) == 0 {
+			g.c = arg()
+		}
+	}
+	return g
 }
 
 // ---------- plan ----------
@@ -539,6 +604,7 @@ func mkC19Plan(tier string) *c19plan {
 	p.segs = append(p.segs, c19seg{"float-let", blocks(p.letCount(p.fltT, p.fltT7, p.letMax-1))})
 	p.segs = append(p.segs, c19seg{"float-sampled", p.samples})
 	p.segs = append(p.segs, c19seg{"float-lets", p.samples})
+	p.segs = append(p.segs, c19seg{"float-gofunc", p.samples})
 	return p
 }
 
@@ -641,8 +707,8 @@ func (c19) Plan(tier string) wk.Plan {
 	}
 	return wk.Plan{
 		Level: "exploration", Cases: n, Chunk: 8, Configs: single("seq", 16), CaseBudget: 300,
-		Rule:       fmt.Sprintf("every bool expression with <=%d operator nodes over {a,b,c,true,false} x all 8 assignments; every float expression with <=%d operator nodes over {a,b,0,1,2,0.5}, 8 binary operators, unary minus, sqr and implicit multiplication x 64 assignments; if-forms (<=%d operator nodes in cond+then+else) and single-let forms enumerated completely; larger trees (bool to 8 nodes, float to 6) and chains of 2-3 nested lets (values over earlier variables, used and unused variables) sampled; each expression in minimal and full parenthesisation, optimizer on and off, plus one rotating variant of the commutative flags. A wk case is a block of %d consecutive expressions; evaluations counts expressions. Non-trivial = at least one operator node; enumerated expressions are distinct by construction, sampled ones are hashed.", p.boolMaxN, p.fltMaxN, p.ifMax, p.block),
-		Floor:      1000,
+		Rule:  fmt.Sprintf("every bool expression with <=%d operator nodes over {a,b,c,true,false} x all 8 assignments; every float expression with <=%d operator nodes over {a,b,0,1,2,0.5}, 8 binary operators, unary minus, sqr and implicit multiplication x 64 assignments; if-forms (<=%d operator nodes in cond+then+else) and single-let forms enumerated completely; larger trees (bool to 8 nodes, float to 6) chains of 2-3 nested lets (values over earlier variables, used and unused variables) and nested calls of variadic Go functions (AddGoFunction) sampled; implicit multiplication written with and without blank; each expression in minimal and full parenthesisation, optimizer on and off, plus one rotating variant of the commutative flags. A wk case is a block of %d consecutive expressions; evaluations counts expressions. Non-trivial = at least one operator node; enumerated expressions are distinct by construction, sampled ones are hashed.", p.boolMaxN, p.fltMaxN, p.ifMax, p.block),
+		Floor: 1000,
 		Assumptions: []string{
 			"harness-built generators mirror example/bool.go and example/minimal.go (those package variables are unexported); '=' of the float domain is declared non-commutative because the flag licenses re-association",
 			"float results are compared with == (so +0 equals -0) or both NaN; with the optimizer on, assignments under which a chain of a commutative operator cannot be re-associated exactly are compared within 1e-12 relative",
@@ -734,7 +800,7 @@ func runC19Seg(c *wk.Case, p *c19plan, seg string, blk int64) {
 		evals++
 		variant := int(k % 4)
 		gens := []*floatGen{getFloatGen(3, true), getFloatGen(3, false), getFloatGen(variant, true)}
-		for mode := 0; mode < 3; mode++ {
+		for mode := 0; mode < 4; mode++ {
 			src := floatRender(t, mode)
 			for _, g := range gens {
 				f, _, err := g.g.Generate(src, "a", "b")
@@ -852,6 +918,20 @@ func runC19Seg(c *wk.Case, p *c19plan, seg string, blk int64) {
 				sampleOnce(sb.String())
 			}
 			checkBool(t, int64(c.Rng.IntN(1<<20)), true)
+		}
+	case seg == "float-gofunc":
+		for i := int64(0); i < p.block/4; i++ {
+			t := randGoCall(c.Rng, p.fltT, 2)
+			switch c.Rng.IntN(3) {
+			case 0:
+				t = &xt{k: 'b', op: 3 + c.Rng.IntN(3), l: t, r: randGoCall(c.Rng, p.fltT, 1)}
+			case 1:
+				t = &xt{k: 'b', op: 3 + c.Rng.IntN(3), l: unrank(p.fltT, 1, c.Rng.Int64N(p.fltT[1]), 6, 8, 2), r: t}
+			}
+			if i == 0 {
+				sampleOnce(floatRender(t, 0))
+			}
+			checkFloat(t, int64(c.Rng.IntN(1<<20)), true)
 		}
 	case seg == "float-lets":
 		for i := int64(0); i < p.block/4; i++ {
